@@ -817,6 +817,8 @@ class Ctx:
             self.compare_result(key, outcome[:2], step, "step %d" % sid)
             if outcome[0] == "ok" and "hutch" in tags(step["fn"]):
                 self.check_hutch_steps(step, args)
+        if outcome[0] == "faulted-returned" and "hutch" in tags(step["fn"]):
+            self.check_hutch_steps(step, args)  # the iteration cap also holds when products were non-finite
         if self.prop == "C18":
             if deferred is not None:
                 raise Violation(*deferred)
